@@ -87,6 +87,9 @@ func newScopeDeferred(rootProvider *provider, parent *scope, ctx context.Context
 	}
 
 	if err := s.runInitializers(); err != nil {
+		// Nobody will ever see this scope: release what the initializers that
+		// did run have created, and cancel the derived context
+		_ = s.Close()
 		return nil, err
 	}
 
